@@ -23,7 +23,7 @@ Definition facts_ok (F : facts) : bool :=
   && f_bytes_isinstance F && f_str_decodes_bytes F && digest_len_ok F
   && f_sa_guard_none F && f_sa_convert_before_store F && f_tl_convert F && f_dt_final_utc F
   && f_uint_integral F && negb (f_uint_keeps_arg F) && f_bool_integral F && negb (f_digest_else_empty F)
-  && f_grouped_delegates F.
+  && f_grouped_delegates F && f_tl_elem_class F.
 
 (* the facts of the code before the three repairs (used to show that each repaired test is load-bearing) *)
 Definition without_uint_fix (F : facts) : facts :=
@@ -33,7 +33,7 @@ Definition without_uint_fix (F : facts) : facts :=
      f_digest_else_empty := f_digest_else_empty F; f_sa_guard_none := f_sa_guard_none F;
      f_sa_convert_before_store := f_sa_convert_before_store F; f_tl_convert := f_tl_convert F;
      f_tl_falsy_empty := f_tl_falsy_empty F; f_dt_arg_utc := f_dt_arg_utc F; f_dt_final_utc := f_dt_final_utc F;
-     f_grouped_delegates := f_grouped_delegates F |}.
+     f_grouped_delegates := f_grouped_delegates F; f_tl_elem_class := f_tl_elem_class F |}.
 Definition without_boolean_fix (F : facts) : facts :=
   {| f_uint16 := f_uint16 F; f_uint32 := f_uint32 F; f_boolean := f_boolean F; f_uint_integral := f_uint_integral F;
      f_bool_integral := false; f_uint_keeps_arg := f_uint_keeps_arg F; f_bytes_isinstance := f_bytes_isinstance F;
@@ -41,7 +41,7 @@ Definition without_boolean_fix (F : facts) : facts :=
      f_digest_else_empty := f_digest_else_empty F; f_sa_guard_none := f_sa_guard_none F;
      f_sa_convert_before_store := f_sa_convert_before_store F; f_tl_convert := f_tl_convert F;
      f_tl_falsy_empty := f_tl_falsy_empty F; f_dt_arg_utc := f_dt_arg_utc F; f_dt_final_utc := f_dt_final_utc F;
-     f_grouped_delegates := f_grouped_delegates F |}.
+     f_grouped_delegates := f_grouped_delegates F; f_tl_elem_class := f_tl_elem_class F |}.
 Definition without_digest_fix (F : facts) : facts :=
   {| f_uint16 := f_uint16 F; f_uint32 := f_uint32 F; f_boolean := f_boolean F; f_uint_integral := f_uint_integral F;
      f_bool_integral := f_bool_integral F; f_uint_keeps_arg := f_uint_keeps_arg F; f_bytes_isinstance := f_bytes_isinstance F;
@@ -49,7 +49,7 @@ Definition without_digest_fix (F : facts) : facts :=
      f_digest_else_empty := true; f_sa_guard_none := f_sa_guard_none F;
      f_sa_convert_before_store := f_sa_convert_before_store F; f_tl_convert := f_tl_convert F;
      f_tl_falsy_empty := f_tl_falsy_empty F; f_dt_arg_utc := f_dt_arg_utc F; f_dt_final_utc := f_dt_final_utc F;
-     f_grouped_delegates := f_grouped_delegates F |}.
+     f_grouped_delegates := f_grouped_delegates F; f_tl_elem_class := f_tl_elem_class F |}.
 
 Definition is_container (v : pv) : bool := match v with PList _ | PTuple _ | PDict _ => true | _ => false end.
 
@@ -194,7 +194,8 @@ Lemma facts_ok_inv F : facts_ok F = true ->
   bound_is (f_boolean F) 0 1 = true /\ f_bytes_isinstance F = true /\ f_str_decodes_bytes F = true /\
   digest_len_ok F = true /\ f_sa_guard_none F = true /\ f_sa_convert_before_store F = true /\
   f_tl_convert F = true /\ f_dt_final_utc F = true /\ f_uint_integral F = true /\ f_uint_keeps_arg F = false /\
-  f_bool_integral F = true /\ f_digest_else_empty F = false /\ f_grouped_delegates F = true.
+  f_bool_integral F = true /\ f_digest_else_empty F = false /\ f_grouped_delegates F = true /\
+  f_tl_elem_class F = true.
 Proof.
   unfold facts_ok. intros H.
   repeat (apply andb_prop in H; destruct H as [H ?]).
